@@ -146,7 +146,9 @@ def run_tlc(ctx, module, cfg=None, env=None, workers=1, timeout=1800, heap="3g",
     with _meta_lock:
         _meta_counter[0] += 1
         meta = ctx.path("tlc-%s-%d" % (cfg, _meta_counter[0]))
-    cmd = ["java", "-XX:+UseParallelGC", "-Xss1g", "-Xmx" + heap]
+    # UTF-8 explicitly: with the C locale the JVM reads the specification's string literals and the JSON traces as
+    # ASCII and every non-ASCII character silently becomes "?"
+    cmd = ["java", "-Dfile.encoding=UTF-8", "-Dsun.jnu.encoding=UTF-8", "-XX:+UseParallelGC", "-Xss1g", "-Xmx" + heap]
     if deque:
         cmd.append("-Dtlc2.tool.queue.IStateQueue=StateDeque")
     cmd += ["-cp", TLA_CP, "tlc2.TLC", "-workers", str(workers), "-metadir", meta, "-cleanup",
